@@ -299,6 +299,89 @@ fn rewrites(name: &str, text: &str, project: &Project, rng: &mut Rng, per_kind: 
   out
 }
 
+/// R6: move one class / interface of `name` into a new module; the original imports it back, the
+/// new module gets the original's imports plus the siblings it mentions, and every other module
+/// that imported the moved name from `name` imports it from the new module instead.
+fn split_rewrites(name: &str, text: &str, project: &Project, rng: &mut Rng, want: usize) -> Vec<(String, Project)> {
+  let mut out = Vec::new();
+  let mut heap = samlang_heap::Heap::new();
+  let checked = front::check_project(&mut heap, project);
+  let Some(mref) = front::mod_ref_lookup(&heap, name) else { return out };
+  let Some(parsed) = checked.parsed.get(&mref) else { return out };
+  if checked.errors.errors().iter().any(|e| e.is_syntax_error()) {
+    return out;
+  }
+  let tree = Walker::new(&heap).module(parsed);
+  let tops: Vec<(&Node, String)> = tree
+    .children
+    .iter()
+    .filter(|c| c.kind == "class" || c.kind == "interface")
+    .filter_map(|c| c.children.iter().find(|x| x.kind == "toplevel_name").map(|n| (c, n.attr.clone())))
+    .collect();
+  if tops.len() < 2 {
+    return out;
+  }
+  let import_text: String = tree.children.iter().filter(|c| c.kind == "import").filter_map(|c| c.loc.and_then(|l| slice(text, &l))).map(|t| format!("{}\n", t.trim_end())).collect();
+  let mut order: Vec<usize> = (0..tops.len()).collect();
+  rng.shuffle(&mut order);
+  for &k in order.iter().take(want) {
+    let (node, cname) = &tops[k];
+    let Some(loc) = node.loc else { continue };
+    let Some(o) = offset(text, loc.start.0, loc.start.1) else { continue };
+    let before = text[..o].trim_end();
+    if before.ends_with("private") {
+      continue; // module-private: cannot be imported from elsewhere
+    }
+    let Some(body) = slice(text, &loc) else { continue };
+    let idents: BTreeSet<String> = vcore::toks::lex(&body).into_iter().map(|t| t.text).collect();
+    let siblings: Vec<&String> = tops.iter().map(|t| &t.1).filter(|n| *n != cname && idents.contains(*n)).collect();
+    let new_name = format!("{name}Split{k}");
+    let sib_import = if siblings.is_empty() { String::new() } else { format!("import {{ {} }} from {name};\n", siblings.iter().map(|s| s.as_str()).collect::<Vec<_>>().join(", ")) };
+    let new_module = format!("{import_text}{sib_import}{body}\n");
+    let Some(rest) = apply(text, &[(loc, String::new())]) else { continue };
+    let rest = format!("import {{ {cname} }} from {new_name};\n{rest}");
+    let mut p2 = project.clone();
+    let mut ok = true;
+    for m in p2.modules.iter_mut() {
+      if m.0 == name {
+        m.1 = rest.clone();
+      } else if !m.0.starts_with("std.") {
+        // importers of the moved name
+        let Some(r2) = front::mod_ref_lookup(&heap, &m.0) else { continue };
+        let Some(p) = checked.parsed.get(&r2) else { continue };
+        let t2 = Walker::new(&heap).module(p);
+        let mut edits = Vec::new();
+        for imp in t2.children.iter().filter(|c| c.kind == "import" && c.attr == name) {
+          let members: Vec<&str> = imp.children.iter().filter(|x| x.kind == "import_member").map(|x| x.attr.as_str()).collect();
+          if members.contains(&cname.as_str()) {
+            let rest_members: Vec<&str> = members.iter().copied().filter(|x| x != cname).collect();
+            let mut line = format!("import {{ {cname} }} from {new_name};");
+            if !rest_members.is_empty() {
+              line = format!("import {{ {} }} from {name};\n{line}", rest_members.join(", "));
+            }
+            if let Some(l) = imp.loc {
+              edits.push((l, line));
+            } else {
+              ok = false;
+            }
+          }
+        }
+        if !edits.is_empty() {
+          match apply(&m.1, &edits) {
+            Some(t) => m.1 = t,
+            None => ok = false,
+          }
+        }
+      }
+    }
+    if ok {
+      p2.modules.push((new_name.clone(), new_module));
+      out.push((format!("`{cname}` moved from {name} to {new_name} ({} sibling imports)", siblings.len()), p2));
+    }
+  }
+  out
+}
+
 fn gen_base(seed: u64, i: u64, corpus: &Corpus) -> (String, Project, String, bool) {
   let mut rng = Rng::new(seed.wrapping_mul(0x9E3779B97F4A7C15) ^ i.wrapping_mul(0xD1B54A32D192ED03));
   if i % 5 == 0 {
@@ -352,17 +435,31 @@ fn main() {
             let rws = rewrites(&mname, &mtext, &project, &mut rng, per_kind);
             let mut by_kind: BTreeMap<String, u64> = BTreeMap::new();
             let mut fails: Vec<Value> = Vec::new();
+            let mut candidates: Vec<(&'static str, String, Project, String)> = Vec::new();
             for (kind, site, new_text) in rws {
-              ctx.begin(i, &format!("{label} {kind}"));
               // a rewrite that does not even parse is this harness's splice problem, not the checker's
               let parsed_ok = vcore::fmtcheck::parse(&new_text).map(|p| p.syntax_errors.is_empty()).unwrap_or(false);
               if !parsed_ok {
                 *by_kind.entry(format!("{kind}:unparsable-splice")).or_insert(0) += 1;
                 continue;
               }
-              *by_kind.entry(kind.to_string()).or_insert(0) += 1;
               let p2 = replace_module(&project, &mname, new_text.clone());
-              let replay = || format!("# rewrite {kind}: {site} (module {mname})\n# ---- rewritten module ----\n{new_text}\n# ---- original module ----\n{mtext}");
+              candidates.push((kind, site.clone(), p2, format!("# rewrite {kind}: {site} (module {mname})\n# ---- rewritten module ----\n{new_text}\n# ---- original module ----\n{mtext}")));
+            }
+            for (site, p2) in split_rewrites(&mname, &mtext, &project, &mut rng, per_kind) {
+              let all_parse = p2.modules.iter().filter(|m| !m.0.starts_with("std.")).all(|m| vcore::fmtcheck::parse(&m.1).map(|p| p.syntax_errors.is_empty()).unwrap_or(false));
+              if !all_parse {
+                *by_kind.entry("split-module:unparsable-splice".to_string()).or_insert(0) += 1;
+                continue;
+              }
+              let user2 = Project { modules: p2.modules.iter().filter(|m| !m.0.starts_with("std.")).cloned().collect() };
+              let replay = format!("# rewrite split-module: {site}\n# ---- rewritten program ----\n{}\n# ---- original module ----\n{mtext}", diffexec::render_project(&user2));
+              candidates.push(("split-module", site, p2, replay));
+            }
+            for (kind, site, p2, replay_text) in candidates {
+              ctx.begin(i, &format!("{label} {kind}"));
+              *by_kind.entry(kind.to_string()).or_insert(0) += 1;
+              let replay = || replay_text.clone();
               match evaluate(&p2, &entry, runnable && base.accepted) {
                 Err(e) => fails.push(json!({"sig": format!("front-end-panic:{}", e.rsplit(" @ ").next().unwrap_or("").replace("/repo/", "")), "what": format!("front end panicked after {kind}: {e}"), "replay": replay()})),
                 Ok(r) => {
